@@ -24,6 +24,11 @@ def strategies_for(name):
     from nbdime.utils import Strategies
     if name in (None, "none"):
         return Strategies({})
+    if name.endswith("@paths"):
+        # the strategy set on the root and on every path below it that the
+        # generated documents can have
+        n = name[:-6]
+        return Strategies({p: n for p in ("/", "/a", "/b", "/c", "/*", "/a/*", "/b/*", "/*/*", "/*/a", "/*/b")})
     return Strategies({"/": name})
 
 
